@@ -91,20 +91,44 @@ def gen_utilities_steered(rng, streams):
         d = s["dt_cont"] if cold else -s["dt_cont"]
         return lo + d, hi + d, cold
     views = [star(s) for s in streams]
-    top = max(v[1] for v in views)
-    bot = min(v[0] for v in views)
+    # the default-utility decision compares with the hottest shifted COLD-stream end and the coldest shifted HOT-stream end
+    top = max([v[1] for v in views if v[2]] or [v[1] for v in views])
+    bot = min([v[0] for v in views if not v[2]] or [v[0] for v in views])
     uts = []
     du = rng.choice([0.0, 2.5, 5.0, 10.0])
-    lvl = top + rng.choice([-du, 0.0, du, du / 2 if du else 1.0, 2.5, -2.5, 50.0, -10.0])
     g = rng.choice([0.0, 0.0, 1.0])
+    # levels around the reach limit: with a glide g the utility's target end sits exactly on the limit for top + du + g
+    lvl = top + rng.choice([-du, 0.0, du, du + g, du + g, du / 2 if du else 1.0, 2.5, -2.5, 50.0, -10.0])
     uts.append(dict(name="TopU", type=rng.choice(["Hot", "Both", "Both"]), t_supply=lvl, t_target=lvl - g, heat_flow=0.0, dt_cont=du, htc=1.0, price=30.0))
     if rng.random() < 0.5:
         uts.append(dict(name="MidU", type=rng.choice(["Hot", "Both"]), t_supply=(top + bot) / 2, t_target=(top + bot) / 2 - g, heat_flow=0.0,
                         dt_cont=du, htc=1.0, price=20.0))
     dc = rng.choice([0.0, 2.5, 5.0, 10.0])
-    lvl = bot + rng.choice([dc, 0.0, -dc, -(dc / 2) if dc else -1.0, -2.5, 2.5, -50.0, 10.0])
+    lvl = bot + rng.choice([dc, 0.0, -dc, -dc - g, -dc - g, -(dc / 2) if dc else -1.0, -2.5, 2.5, -50.0, 10.0])
     uts.append(dict(name="BotU", type=rng.choice(["Cold", "Both", "Cold"]), t_supply=lvl, t_target=lvl + g, heat_flow=0.0, dt_cont=dc, htc=1.0, price=2.0))
     return uts, "steered"
+
+
+def gen_utilities_limit(rng, streams):
+    """Utilities whose deciding end sits EXACTLY on the reach limit of the default-utility decision: a hot utility whose target end
+    (shifted) equals the hottest shifted cold-stream temperature, a cold utility whose supply end equals the coldest shifted
+    hot-stream temperature.  Both are 'just sufficient': no default utility may be added."""
+    def star(s):
+        lo, hi = sorted((s["t_supply"], s["t_target"]))
+        cold = s["t_supply"] <= s["t_target"]
+        d = s["dt_cont"] if cold else -s["dt_cont"]
+        return lo + d, hi + d, cold
+    views = [star(s) for s in streams]
+    top = max([v[1] for v in views if v[2]] or [v[1] for v in views])
+    bot = min([v[0] for v in views if not v[2]] or [v[0] for v in views])
+    du, dc = rng.choice([0.0, 2.5, 5.0]), rng.choice([0.0, 2.5, 5.0])
+    g = rng.choice([0.5, 1.0, 2.0])
+    uts = [dict(name="HPS", type="Hot", t_supply=top + du + g, t_target=top + du, heat_flow=0.0, dt_cont=du, htc=1.0, price=30.0)]
+    if rng.random() < 0.5:
+        uts.append(dict(name="LPS", type="Hot", t_supply=(top + bot) / 2 + g, t_target=(top + bot) / 2, heat_flow=0.0, dt_cont=du, htc=1.0, price=20.0))
+    uts.append(dict(name="CW", type="Cold", t_supply=bot - dc - (0.0 if rng.random() < 0.5 else 10.0), t_target=bot - dc + g, heat_flow=0.0,
+                    dt_cont=dc, htc=1.0, price=2.0))
+    return uts, "limit"
 
 
 def gen_problem(rng, nzones=None, regime=None, nmax=7):
@@ -116,7 +140,9 @@ def gen_problem(rng, nzones=None, regime=None, nmax=7):
             s["name"] = f"{s['name']}_{z}"
         streams += ss
         shapes.append(sh)
-    if regime == "steered":
+    if regime == "limit":
+        uts, reg = gen_utilities_limit(rng, streams)
+    elif regime == "steered":
         uts, reg = gen_utilities_steered(rng, streams)
     else:
         uts, reg = gen_utilities(rng, regime)
